@@ -469,10 +469,13 @@ def lean_typedef(typedef):
 	fields = ',\n      '.join(
 		f'{{ name := {lean_string(field["name"])}, kind := {lean_kind(field["kind"])}, cond := {lean_cond(field["cond"])} }}' for field in typedef['fields'])
 	comparer = ', '.join(f'({lean_string(name)}, {lean_option(transform, lean_string)})' for name, transform in typedef['comparer'])
+	consts = ', '.join(f'({lean_string(name)}, {lean_string(type_name)}, {lean_string(str(value))})' for name, type_name, value in typedef.get('consts', []))
+	inits = ', '.join(f'({lean_string(key)}, {lean_string(value)})' for key, value in typedef.get('initializers', []))
 	return (
 		f'.struct {{\n    fields := [\n      {fields}],\n    inherited := {typedef["inherited"]}, base := {lean_option(typedef["base"], lean_string)}, '
 		f'abstract := {lean_bool(typedef["abstract"])},\n    disc := [{", ".join(lean_string(name) for name in typedef["disc"])}], '
-		f'discValues := [{", ".join(lean_int(value) for value in typedef["discValues"])}], comparer := [{comparer}] }}')
+		f'discValues := [{", ".join(lean_int(value) for value in typedef["discValues"])}], comparer := [{comparer}],\n    '
+		f'consts := [{consts}], inits := [{inits}] }}')
 
 
 def to_lean(schema, namespace, definition):
